@@ -62,40 +62,70 @@ theorem take?_of_le {n : Nat} {bs : List Nat} (h : n ≤ bs.length) : take? n bs
   have : (bs.take n).length = n := by simp [List.length_take]; omega
   simp [this]
 
-/-- `RangedBytesIterator` over a payload of exactly `size * rem` octets starting at `index`: all `rem` items
-    come out iff the last index is below 65535; otherwise the unguarded `index += 1` overflows (D2) -/
+/-- `RangedBytesIterator` never panics when the announced last index `index + rem - 1` is a u16 — whatever the
+    payload (also a truncated one): the `index += 1` is only executed when another item remains -/
+theorem iterRangedBytes_no_panic (size : Nat) : ∀ (rem : Nat) (data : List Nat) (index : Nat), index + rem ≤ 65536 →
+    ∃ items, iterRangedBytes size data index rem = .ok items := by
+  intro rem
+  induction rem with
+  | zero => intro data index _; exact ⟨[], by simp [iterRangedBytes]⟩
+  | succ rem ih =>
+    intro data index hle
+    cases ht : take? size data with
+    | none => exact ⟨[], by simp only [iterRangedBytes, ht]⟩
+    | some pr =>
+      obtain ⟨b, rest⟩ := pr
+      by_cases hrem : 0 < rem
+      · obtain ⟨items, hi⟩ := ih rest (index + 1) (by omega)
+        have hlt : ¬ index ≥ 65535 := by omega
+        exact ⟨⟨some index, b⟩ :: items, by simp only [iterRangedBytes, ht, hrem, hlt, ↓reduceIte, hi]⟩
+      · obtain ⟨items, hi⟩ := ih rest index (by omega)
+        exact ⟨⟨some index, b⟩ :: items, by simp only [iterRangedBytes, ht, hrem, ↓reduceIte, hi]⟩
+
+/-- `RangedBytesIterator` over a payload of exactly `size * rem` octets starting at `index`, last index
+    `index + rem - 1 ≤ 65535` (65535 included): all `rem` items come out, with consecutive indices, and their
+    octets concatenate to the payload, `size` octets each -/
 theorem iterRangedBytes_spec (size : Nat) : ∀ (rem : Nat) (data : List Nat) (index : Nat), data.length = size * rem →
-    (index + rem ≤ 65535 → ∃ items, iterRangedBytes size data index rem = .ok items ∧ items.length = rem ∧
+    index + rem ≤ 65536 → ∃ items, iterRangedBytes size data index rem = .ok items ∧ items.length = rem ∧
         items.map (·.index) = (List.range rem).map (fun i => some (index + i)) ∧
-        (items.map (·.bytes)).flatten = data) ∧
-    (0 < rem → index ≤ 65535 → index + rem > 65535 → iterRangedBytes size data index rem = .error .addOverflow) := by
+        (items.map (·.bytes)).flatten = data ∧ ∀ it ∈ items, it.bytes.length = size := by
   intro rem
   induction rem with
   | zero =>
-    intro data index hl
+    intro data index hl _
     have : data = [] := List.eq_nil_of_length_eq_zero (by simpa using hl)
     subst this
-    exact ⟨fun _ => ⟨[], by simp [iterRangedBytes]⟩, fun h => absurd h (by omega)⟩
+    exact ⟨[], by simp [iterRangedBytes]⟩
   | succ rem ih =>
-    intro data index hl
+    intro data index hl hle
     have hge : size ≤ data.length := by rw [hl, Nat.mul_succ]; omega
     have hdrop : (data.drop size).length = size * rem := by simp [List.length_drop, hl, Nat.mul_succ]
-    obtain ⟨ih1, ih2⟩ := ih (data.drop size) (index + 1) hdrop
-    constructor
-    · intro hle
-      obtain ⟨items, hi, hlen, hidx, hby⟩ := ih1 (by omega)
+    by_cases hrem : 0 < rem
+    · obtain ⟨items, hi, hlen, hidx, hby, hsz⟩ := ih (data.drop size) (index + 1) hdrop (by omega)
       have hlt : ¬ index ≥ 65535 := by omega
-      refine ⟨⟨some index, data.take size⟩ :: items, ?_, by simp [hlen], ?_, ?_⟩
-      · simp only [iterRangedBytes, take?_of_le hge, hlt, ↓reduceIte, hi]
+      have htake : (data.take size).length = size := by simp [List.length_take]; omega
+      refine ⟨⟨some index, data.take size⟩ :: items, ?_, by simp [hlen], ?_, ?_, ?_⟩
+      · simp only [iterRangedBytes, take?_of_le hge, hrem, hlt, ↓reduceIte, hi]
       · simp only [List.map_cons, hidx, List.range_succ_eq_map, List.map_map, Nat.add_zero, List.cons.injEq, true_and]
         apply List.map_congr_left
         intro a _; simp only [Function.comp]; congr 1; omega
       · simp only [List.map_cons, List.flatten_cons, hby, List.take_append_drop]
-    · intro _ hidx hgt
-      by_cases h65 : index ≥ 65535
-      · simp only [iterRangedBytes, take?_of_le hge, h65, ↓reduceIte]
-      · have hrem : 0 < rem := by omega
-        have := ih2 hrem (by omega) (by omega)
-        simp only [iterRangedBytes, take?_of_le hge, h65, ↓reduceIte, this]
+      · intro it hit
+        rcases List.mem_cons.mp hit with hit | hit
+        · subst hit; exact htake
+        · exact hsz it hit
+    · have h0 : rem = 0 := by omega
+      subst h0
+      have hnil : data.drop size = [] := List.eq_nil_of_length_eq_zero (by simpa using hdrop)
+      have htake : (data.take size).length = size := by simp [List.length_take]; omega
+      refine ⟨[⟨some index, data.take size⟩], ?_, rfl, ?_, ?_, ?_⟩
+      · simp only [iterRangedBytes, take?_of_le hge, Nat.lt_irrefl, ↓reduceIte]
+      · simp
+      · have := List.take_append_drop size data
+        rw [hnil, List.append_nil] at this
+        simp [this]
+      · intro it hit
+        rw [List.mem_singleton] at hit
+        subst hit; exact htake
 
 end Dnp3.App
